@@ -23,14 +23,15 @@ SPEC = {
             "samply/src/linux_shared/process.rs::notify_dead,finish,rename_without_recycling,recycle_or_get_new_thread"],
     "C02": ["samply/src/shared/lib_mappings.rs", "samply/src/shared/process_sample_data.rs::flush_samples_to_profile",
             "samply/src/linux_shared/converter.rs::handle_fork,handle_comm,get_sample_stack,compute_base_avma,add_module_to_process",
-            "samply/src/shared/unresolved_samples.rs"],
+            "samply/src/shared/unresolved_samples.rs", "fxprof-processed-profile/src/library_info.rs", "fxprof-processed-profile/src/global_lib_table.rs"],
     "C03": ["fxprof-processed-profile/src/frame_table.rs", "fxprof-processed-profile/src/func_table.rs", "fxprof-processed-profile/src/stack_table.rs",
             "fxprof-processed-profile/src/resource_table.rs", "fxprof-processed-profile/src/native_symbols.rs", "fxprof-processed-profile/src/global_lib_table.rs",
             "fxprof-processed-profile/src/string_table.rs", "fxprof-processed-profile/src/thread_string_table.rs", "fxprof-processed-profile/src/marker_table.rs", "fxprof-processed-profile/src/category.rs",
             "fxprof-processed-profile/src/profile.rs::sorted_threads,add_marker,set_marker_stack,handle_for_stack,handle_for_native_symbol,handle_for_category,handle_for_subcategory,"
             "handle_for_frame_with_label_internal,handle_for_frame_with_address_internal,handle_for_frame_with_address_and_symbol_internal,add_process,add_thread,make_unique_pid_or_tid,"
             "handle_for_stack_frames,add_allocation_sample", "fxprof-processed-profile/src/process.rs::thread_handle_for_allocations"],
-    "C04": ["fxprof-processed-profile/src/sample_table.rs", "fxprof-processed-profile/src/counters.rs", "fxprof-processed-profile/src/cpu_delta.rs"],
+    "C04": ["fxprof-processed-profile/src/sample_table.rs", "fxprof-processed-profile/src/counters.rs", "fxprof-processed-profile/src/cpu_delta.rs",
+            "fxprof-processed-profile/src/thread.rs::add_sample,add_sample_same_stack_zero_cpu", "fxprof-processed-profile/src/profile.rs::add_sample,add_sample_same_stack_zero_cpu,add_counter_sample"],
     "C05": ["samply-symbols/src/symbol_map_object.rs::new,lookup_relative_address,lookup_sync,file_offset_to_svma,name", "samply-symbols/src/jitdump.rs::lookup_sync,lookup_relative_address",
             "samply-symbols/src/breakpad/symbol_map.rs::lookup_sync"],
     "C06": ["samply-symbols/src/lib.rs::load_symbol_map,load_binary,load_symbol_map_from_location,load_binary_at_location",
